@@ -338,15 +338,16 @@ def run(ctx):
     ctx.note('%d real children: run(..., withexitstatus=True) returns the true exit code' % real)
     # binding self-test
     cands = [t for t in uniq if verdicts[t['id']][0] == 'ok' and any(e['e'] == 'send' for e in t['ev'])]
-    a = copy.deepcopy(cands[0]); a['id'] = 'dup-output'
-    a['ev'][-1]['result'] = a['ev'][-1]['result'] + a['ev'][-1]['result'][:1] + ['a']
-    b = copy.deepcopy(cands[0]); b['id'] = 'double-answer'
-    i = [k for k, e in enumerate(b['ev']) if e['e'] == 'send'][0]
-    b['ev'].insert(i, copy.deepcopy(b['ev'][i]))
-    v2, _ = tracecheck.validate([a, b], 'ExpectTrace', ctx.work, constants=TRACE_CONSTS, procs=1, tag='selftest')
-    if v2['dup-output'][0] == 'ok' or v2['double-answer'][0] == 'ok':
-        raise tlc.TLCError('self-test: corrupted run() traces accepted: %s' % v2)
-    ctx.note('binding self-test: duplicated output -> %s, double answer -> %s' % (v2['dup-output'][0], v2['double-answer'][0]))
+    if common.selftest_possible(ctx, cands, 'a response sent'):
+        a = copy.deepcopy(cands[0]); a['id'] = 'dup-output'
+        a['ev'][-1]['result'] = a['ev'][-1]['result'] + a['ev'][-1]['result'][:1] + ['a']
+        b = copy.deepcopy(cands[0]); b['id'] = 'double-answer'
+        i = [k for k, e in enumerate(b['ev']) if e['e'] == 'send'][0]
+        b['ev'].insert(i, copy.deepcopy(b['ev'][i]))
+        v2, _ = tracecheck.validate([a, b], 'ExpectTrace', ctx.work, constants=TRACE_CONSTS, procs=1, tag='selftest')
+        if v2['dup-output'][0] == 'ok' or v2['double-answer'][0] == 'ok':
+            raise tlc.TLCError('self-test: corrupted run() traces accepted: %s' % v2)
+        ctx.note('binding self-test: duplicated output -> %s, double answer -> %s' % (v2['dup-output'][0], v2['double-answer'][0]))
     status, nviol, nknown = common.conclude(ctx)
     evidence.write('C12', ctx.tier, ctx.seed, 'model_checking', {
         'states': mc['distinct'], 'transitions': mc['generated'], 'traces_validated_against_impl': len(uniq),
